@@ -15,25 +15,7 @@ use std::collections::{BTreeMap, BTreeSet};
 use std::path::{Path, PathBuf};
 use std::time::Duration;
 
-#[derive(Clone, Debug, Serialize, Deserialize, PartialEq, Eq)]
-pub enum BlobDamageKind {
-    /// cut inside the header of a record (class: 0 first record, 1 middle, 2 last)
-    CutRecordHeader { which: u8, frac: u16 },
-    /// cut inside the data/meta of the last record
-    CutLastBody { frac: u16 },
-    /// zero the blob magic
-    ZeroMagic,
-    /// cut inside the 20-byte blob header (incl. zero length)
-    CutBlobHeader { frac: u16 },
-    /// flip a byte of a record header
-    FlipRecordHeader { which: u8, frac: u16 },
-}
-
-#[derive(Clone, Debug, Serialize, Deserialize, PartialEq, Eq)]
-pub struct BlobDamage {
-    pub sel: u16,
-    pub kind: BlobDamageKind,
-}
+pub use crate::ops::{BlobDamage, BlobDamageKind};
 
 /// C07 op: either an ordinary op or a restart with damage to blob files (forces quarantine)
 #[derive(Clone, Debug, Serialize, Deserialize)]
@@ -320,7 +302,7 @@ impl<'a> Harm<'a> {
             Op::Reopen { lazy, remove_all_idx, damage } => {
                 self.reopen(*lazy, *remove_all_idx, damage, &[]).await;
             }
-            Op::Fail { .. } | Op::Cancel { .. } | Op::Burst { .. } => {}
+            Op::Fail { .. } | Op::Cancel { .. } | Op::Burst { .. } | Op::CrashReopen { .. } => {}
         }
     }
 
@@ -343,7 +325,7 @@ impl<'a> Harm<'a> {
         // damage to blob files is the harness's doing: apply it, then take a new baseline snapshot
         let mut damaged = false;
         for d in blob_damage {
-            damaged |= apply_blob_damage(&self.dir, d, self.cfg.keylen);
+            damaged |= crate::damage::apply_blob_damage(&self.dir, d, self.cfg.keylen);
         }
         if damaged {
             self.labels.insert("blob_damaged".into());
@@ -361,58 +343,6 @@ impl<'a> Harm<'a> {
             }
         }
     }
-}
-
-fn apply_blob_damage(dir: &Path, d: &BlobDamage, keylen: usize) -> bool {
-    let blobs: Vec<PathBuf> = sut::list_files(dir).into_iter().filter(|(_, i, _)| !*i).map(|(_, _, p)| p).collect();
-    if blobs.is_empty() {
-        return false;
-    }
-    let path = &blobs[crate::damage::pick(d.sel, blobs.len())];
-    let mut bytes = match std::fs::read(path) {
-        Ok(b) => b,
-        Err(_) => return false,
-    };
-    let parsed = blobfmt::parse_blob_bytes(&bytes, keylen);
-    let n = parsed.records.len();
-    let pick_rec = |which: u8| -> Option<&blobfmt::ParsedRec> {
-        if n == 0 {
-            None
-        } else {
-            Some(&parsed.records[match which % 3 {
-                0 => 0,
-                1 => n / 2,
-                _ => n - 1,
-            }])
-        }
-    };
-    match &d.kind {
-        BlobDamageKind::CutRecordHeader { which, frac } => match pick_rec(*which) {
-            Some(r) => bytes.truncate(crate::damage::span(*frac, r.pos + 1, r.pos + r.header_len - 1) as usize),
-            None => return false,
-        },
-        BlobDamageKind::CutLastBody { frac } => match pick_rec(2) {
-            Some(r) if r.end() > r.pos + r.header_len => bytes.truncate(crate::damage::span(*frac, r.pos + r.header_len, r.end() - 1) as usize),
-            _ => return false,
-        },
-        BlobDamageKind::ZeroMagic => {
-            if bytes.len() < 8 {
-                return false;
-            }
-            for b in &mut bytes[..8] {
-                *b = 0;
-            }
-        }
-        BlobDamageKind::CutBlobHeader { frac } => bytes.truncate(crate::damage::span(*frac, 0, (blobfmt::BLOB_HEADER_LEN as u64 - 1).min(bytes.len() as u64)) as usize),
-        BlobDamageKind::FlipRecordHeader { which, frac } => match pick_rec(*which) {
-            Some(r) => {
-                let p = crate::damage::span(*frac, r.pos, r.pos + r.header_len - 1) as usize;
-                bytes[p] ^= 0x5a;
-            }
-            None => return false,
-        },
-    }
-    std::fs::write(path, bytes).is_ok()
 }
 
 pub fn run_harm(c: &HarmCase, dir: &Path, findings: &Findings) -> Result<CaseOut, Failure> {
